@@ -56,6 +56,13 @@ def run_pna(args, cwd, timeout=20, env=None, stdin=None, threads=None, mem_limit
         e["RAYON_NUM_THREADS"] = str(threads)
     if env:
         e.update(env)
+    # a limit is a statement about the command ("terminates within .."), not about the machine: on a box whose run
+    # queue is several times its cores (other checks, builds) the same limit is stretched, so that a starved process is
+    # not taken for a hung one (DESIGN §12.4: C14 thorough, a 60 s append under load 30+); a real hang still ends at the limit
+    try:
+        timeout = timeout * min(8.0, max(1.0, 3.0 * os.getloadavg()[0] / (os.cpu_count() or 16)))
+    except OSError:
+        pass
     t0 = time.time()
     try:
         p = subprocess.run([pna_path()] + list(args), cwd=cwd, env=e, input=stdin, timeout=timeout,
